@@ -49,8 +49,8 @@ def bisect (f : Int → Int) (b e : Int) : Int := (bisect2 f b e).2
 /-- number of passes through the `while` loop of `_bisect` -/
 def bisectSteps (f : Int → Int) (b e : Int) : Nat :=
   if 1 ≤ (halfEven (e - b)).natAbs then
-    (if 0 < f b * f (b + halfEven (e - b)) then bisectSteps f (b + halfEven (e - b)) e
-     else bisectSteps f b (b + halfEven (e - b))) + 1
+    if 0 < f b * f (b + halfEven (e - b)) then bisectSteps f (b + halfEven (e - b)) e + 1
+    else bisectSteps f b (b + halfEven (e - b)) + 1
   else 0
 termination_by (e - b).natAbs
 decreasing_by
